@@ -383,7 +383,10 @@ func GenProperty(w *Writer, prop string, t Tier, seed uint64) error {
 			}},
 		})
 	case "C08":
-		return GenParseFamily(w, r, t)
+		if err := GenParseFamily(w, r, t); err != nil {
+			return err
+		}
+		return GenSyntaxFamily(w, r, t)
 	case "C15":
 		return GenFuzzFamily(w, r, t)
 	case "C09":
